@@ -342,7 +342,8 @@ def sig_of(e):
     return s
 
 
-MINE = {"C12": lambda c, e: c.startswith("write:") or (c.startswith("read:") and not e.get("cols") and not e.get("alias") and not e.get("cast")),
+# (GeoJSON files belong to C18 as far as writing and whole-file reading go; C14 names read_geojson and its restrictions)
+MINE = {"C12": lambda c, e: e.get("owner") != "geo" and (c.startswith("write:") or (c.startswith("read:") and not e.get("cols") and not e.get("alias") and not e.get("cast"))),
         "C14": lambda c, e: c.startswith("read:") and (bool(e.get("cols")) or e.get("alias") or e.get("cast"))}
 
 
